@@ -20,6 +20,7 @@
 
 #include <tulz/observer/routing/ConcurrentSubjectRouter.h>
 #include <tulz/observer/routing/RoutingKeyBuilder.h>
+#include <tulz/observer/routing/SubjectRouter.h>
 
 #include <algorithm>
 #include <memory>
@@ -37,6 +38,7 @@ constexpr uint64_t kInf = ~0ULL;
 
 struct Cover {
     uint64_t histories = 0, ops = 0, notifies = 0, notifiesWithCallbacks = 0, callbacks = 0, subscribes = 0, unsubscribes = 0, shrinks = 0, existsCalls = 0, depthCalls = 0;
+    uint64_t linHistories = 0, linOps = 0, linNodes = 0, linInconclusive = 0, linWithOverlap = 0;
     uint64_t writesOverlappingNotify = 0, snapshotsJudged = 0, snapshotsWithConcurrentWrite = 0, missedJudged = 0, maxThreads = 0, nontrivialCases = 0;
     std::vector<uint64_t> fps;
     std::vector<std::string> samples;
@@ -324,6 +326,233 @@ void runCase(uint64_t c, rt::Rng rng) {
     if (!gCaseFailed) delete router;
 }
 
+
+// ------------------------------------------------------------------ small histories: full linearizability
+// "Behave as if executed one at a time": a history is accepted iff some total order of its operations,
+// consistent with real time (ret(a) < call(b) => a before b), replayed on the *sequential* SubjectRouter,
+// gives every operation the result it returned (notify: return value and set of observers reached;
+// exists / depth: the value). The sequential SubjectRouter itself is the specification.
+struct LinOp {
+    const Op *op;
+    std::vector<int> reached;   // sorted observer ids (notify)
+};
+
+struct LinChecker {
+    std::vector<LinOp> ops;
+    std::vector<std::vector<int>> mustPrecede;   // indices that must come before i
+    uint64_t nodes = 0, maxNodes = 400000;
+    bool exhausted = false;
+
+    // replays `order` on a fresh sequential router; returns true iff the last operation's result matches
+    bool replayMatches(const std::vector<int> &order) {
+        SubjectRouter model;
+        std::map<int, std::unique_ptr<USubscription>> handles;
+        std::vector<int> hit;
+        bool ok = true;
+        for (size_t k = 0; k < order.size(); ++k) {
+            const LinOp &lo = ops[(size_t) order[k]];
+            const Op &o = *lo.op;
+            bool last = k + 1 == order.size();
+            switch (o.kind) {
+                case OSubscribe: {
+                    int id = o.obs;
+                    handles[id] = std::make_unique<USubscription>(model.subscribe(build(o.pattern), [id, &hit]() { hit.push_back(id); }));
+                    break;
+                }
+                case OUnsubscribe: {
+                    auto it = handles.find(o.obs);
+                    if (it == handles.end()) return false;   // unsubscribe before its subscribe: not a legal order
+                    (*it->second)->unsubscribe();
+                    handles.erase(it);
+                    break;
+                }
+                case OShrink: model.shrink(build(o.pattern)); break;
+                case OExists: { bool r = model.exists(build(o.pattern)); if (last) ok = r == (o.result != 0); break; }
+                case ODepth: { size_t r = model.depth(); if (last) ok = r == o.result; break; }
+                case ONotify: {
+                    hit.clear();
+                    size_t r = model.notify(build(o.pattern));
+                    if (last) {
+                        std::sort(hit.begin(), hit.end());
+                        ok = r == o.result && hit == lo.reached;
+                    }
+                    break;
+                }
+            }
+        }
+        return ok;
+    }
+
+    bool dfs(std::vector<int> &order, std::vector<char> &used) {
+        if (order.size() == ops.size()) return true;
+        for (size_t i = 0; i < ops.size(); ++i) {
+            if (used[i]) continue;
+            bool ready = true;
+            for (int p : mustPrecede[i]) if (!used[(size_t) p]) { ready = false; break; }
+            if (!ready) continue;
+            if (++nodes > maxNodes) { exhausted = true; return false; }
+            order.push_back((int) i);
+            used[i] = 1;
+            // every prefix must be consistent: check the result of the operation just appended
+            if (replayMatches(order) && dfs(order, used)) return true;
+            if (exhausted) return false;
+            used[i] = 0;
+            order.pop_back();
+        }
+        return false;
+    }
+};
+
+void runLinCase(uint64_t c, rt::Rng rng) {
+    int nT = (int) rng.range(2, 4);
+    int opsPerThread = (int) rng.range(2, nT == 4 ? 3 : 4);
+    spy::Delays d;
+    int profile = (int) rng.below(3);
+    if (profile == 1) { d.afterWake = 300; d.maxUs = 120; }
+    else if (profile == 2) { d.afterWake = 150; d.condEntry = 100; d.beforeLock = 60; d.afterUnlock = 80; d.beforeNotify = 100; d.maxUs = 80; }
+    char desc[160];
+    snprintf(desc, sizeof desc, "small history case %" PRIu64 ": threads=%d ops/thread=%d delayProfile=%d", c, nT, opsPerThread, profile);
+    gDesc = desc;
+    rt::crumb("%s", desc);
+    auto *router = new ConcurrentSubjectRouter();
+    spy::unwatchAll();
+    spy::watch(router, sizeof(ConcurrentSubjectRouter));
+    spy::configure(d, rt::mix(rt::st().seed, c));
+    if (!profile) spy::disableDelays();
+    gObs.clear();
+    size_t maxObs = (size_t) nT * (size_t) opsPerThread + 4;
+    for (size_t i = 0; i < maxObs; ++i) gObs.emplace_back(new ObsRec());
+    std::atomic<int> nextObs{0};
+    std::atomic<int> go{0};
+    std::vector<std::vector<Op>> logs((size_t) nT + 1);
+    // a prologue on the main thread gives the history something to collide on
+    std::vector<std::pair<int, std::unique_ptr<USubscription>>> pre;
+    auto doSubscribe = [&](std::vector<Op> &log, std::vector<std::pair<int, std::unique_ptr<USubscription>>> &mine, rt::Rng &r) {
+        int id = nextObs.fetch_add(1);
+        ObsRec &rec = *gObs[(size_t) id];
+        std::vector<int> p;
+        int depth = (int) r.range(1, 2);
+        for (int i = 0; i < depth; ++i) p.push_back((int) r.below(kNames.size()));
+        for (int l : p) rec.key.push_back(kNames[(size_t) l]);
+        log.push_back(Op{OSubscribe, p, id});
+        Op &o = log.back();
+        o.call = spy::stamp();
+        rec.subCall.store(o.call);
+        auto sub = std::make_unique<USubscription>(router->subscribe(build(p), [id]() {
+            Op *n = tlsNotify;
+            uint64_t e = spy::stamp();
+            unsigned w = tlsRng ? (unsigned) tlsRng->below(3) : 0;
+            if (w == 1) sched_yield(); else if (w == 2) usleep(30 + (tlsRng ? (unsigned) tlsRng->below(200) : 0));
+            if (n) n->cbs.push_back(CbRec{id, e, spy::stamp()});
+        }));
+        o.ret = spy::stamp();
+        rec.subRet.store(o.ret);
+        mine.emplace_back(id, std::move(sub));
+    };
+    {
+        rt::Rng r(rng.next());
+        logs[(size_t) nT].reserve(8);
+        int n0 = (int) rng.range(0, 3);
+        for (int i = 0; i < n0; ++i) doSubscribe(logs[(size_t) nT], pre, r);
+    }
+    std::vector<std::thread> th;
+    for (int t = 0; t < nT; ++t) {
+        logs[(size_t) t].reserve((size_t) opsPerThread + 2);
+        th.emplace_back([&, t, seed = rng.next()] {
+            rt::Rng r(seed);
+            tlsRng = &r;
+            std::vector<std::pair<int, std::unique_ptr<USubscription>>> mine;
+            auto &log = logs[(size_t) t];
+            auto pattern = [&](bool wild) {
+                std::vector<int> p;
+                int depth = (int) r.range(1, 2);
+                for (int i = 0; i < depth; ++i) p.push_back(wild && r.chance(450) ? -1 : (int) r.below(kNames.size()));
+                return p;
+            };
+            while (!go.load(std::memory_order_acquire)) sched_yield();
+            for (int k = 0; k < opsPerThread; ++k) {
+                unsigned q = (unsigned) r.below(100);
+                if (q < 34) {
+                    log.push_back(Op{ONotify, pattern(true)});
+                    Op &o = log.back();
+                    o.cbs.reserve(16);
+                    tlsNotify = &o;
+                    o.call = spy::stamp();
+                    o.result = router->notify(build(o.pattern));
+                    o.ret = spy::stamp();
+                    tlsNotify = nullptr;
+                } else if (q < 56) doSubscribe(log, mine, r);
+                else if (q < 72) {
+                    if (!mine.empty()) {
+                        size_t idx = r.below(mine.size());
+                        int id = mine[idx].first;
+                        log.push_back(Op{OUnsubscribe, {}, id});
+                        Op &o = log.back();
+                        o.call = spy::stamp();
+                        (*mine[idx].second)->unsubscribe();
+                        o.ret = spy::stamp();
+                        mine.erase(mine.begin() + (long) idx);
+                    }
+                } else if (q < 82) { log.push_back(Op{OShrink, pattern(true)}); Op &o = log.back(); o.call = spy::stamp(); router->shrink(build(o.pattern)); o.ret = spy::stamp(); }
+                else if (q < 93) { log.push_back(Op{OExists, pattern(true)}); Op &o = log.back(); o.call = spy::stamp(); o.result = router->exists(build(o.pattern)); o.ret = spy::stamp(); }
+                else { log.push_back(Op{ODepth, {}}); Op &o = log.back(); o.call = spy::stamp(); o.result = router->depth(); o.ret = spy::stamp(); }
+            }
+            tlsRng = nullptr;
+        });
+    }
+    go.store(1, std::memory_order_release);
+    for (auto &x : th) x.join();
+    spy::disableDelays();
+
+    LinChecker lc;
+    for (auto &l : logs) for (auto &o : l) {
+        LinOp lo{&o, {}};
+        for (auto &cb : o.cbs) lo.reached.push_back(cb.obs);
+        std::sort(lo.reached.begin(), lo.reached.end());
+        lc.ops.push_back(lo);
+    }
+    size_t n = lc.ops.size();
+    lc.mustPrecede.resize(n);
+    for (size_t i = 0; i < n; ++i)
+        for (size_t j = 0; j < n; ++j)
+            if (i != j && lc.ops[j].op->ret < lc.ops[i].op->call) lc.mustPrecede[i].push_back((int) j);
+    std::vector<int> order;
+    std::vector<char> used(n, 0);
+    bool ok = lc.dfs(order, used);
+    ++C.linHistories;
+    C.linOps += n;
+    C.linNodes += lc.nodes;
+    if (lc.exhausted) ++C.linInconclusive;
+    else if (!ok) {
+        std::string h;
+        static const char *kn[] = {"notify", "subscribe", "unsubscribe", "shrink", "exists", "depth"};
+        for (size_t t = 0; t < logs.size(); ++t) for (auto &o : logs[t]) {
+            h += "T" + std::to_string(t) + ":" + kn[o.kind] + (o.kind == ODepth || o.kind == OUnsubscribe ? "" : patStr(o.pattern)) + (o.obs >= 0 ? "#" + std::to_string(o.obs) : "") + "[" + std::to_string(o.call) + "," + std::to_string(o.ret) + "]";
+            if (o.kind == ONotify) { h += "->" + std::to_string(o.result) + "{"; for (auto &cb : o.cbs) h += std::to_string(cb.obs) + " "; h += "}"; }
+            if (o.kind == OExists || o.kind == ODepth) h += "->" + std::to_string(o.result);
+            h += "; ";
+        }
+        fail("not-linearizable", "small-history", "no order of the " + std::to_string(n) + " operations that respects real time reproduces their results on the sequential router: " + h);
+    } else {
+        bool concurrent = false;
+        for (size_t i = 0; i < n && !concurrent; ++i) for (size_t j = i + 1; j < n; ++j)
+            if (lc.ops[i].op->call < lc.ops[j].op->ret && lc.ops[j].op->call < lc.ops[i].op->ret) { concurrent = true; break; }
+        if (concurrent) {
+            ++C.linWithOverlap;
+            rt::Hash hs;
+            std::vector<std::pair<uint64_t, int>> ev;
+            for (size_t i = 0; i < n; ++i) ev.push_back({lc.ops[i].op->ret, (int) lc.ops[i].op->kind});
+            std::sort(ev.begin(), ev.end());
+            for (auto &e : ev) hs.add((uint64_t) e.second);
+            hs.add(n); hs.add(c);
+            C.fps.push_back(hs.get());
+            ++C.nontrivialCases;
+        }
+    }
+    ++C.histories;
+    if (!gCaseFailed) { pre.clear(); delete router; }
+}
+
 void onDeadlock(const std::string &desc) {
     rt::violation("C11", "quiescent-deadlock", "router", gDesc + ": every thread is blocked inside the router and nothing can wake it: " + desc);
 }
@@ -337,7 +566,8 @@ int main(int argc, char **argv) {
     for (uint64_t c = rt::st().from; c < rt::st().from + rt::st().count; ++c) {
         rt::setCase(c);
         gCaseFailed = false;
-        runCase(c, rt::Rng(rt::mix(rt::st().seed, c)));
+        if (rt::optStr("mode", "stress") == "lin") runLinCase(c, rt::Rng(rt::mix(rt::st().seed, c)));
+        else runCase(c, rt::Rng(rt::mix(rt::st().seed, c)));
         spy::recycle();
     }
     spy::stopMonitor();
@@ -347,7 +577,7 @@ int main(int argc, char **argv) {
                    .kv("callbacks", C.callbacks).kv("subscribes", C.subscribes).kv("unsubscribes", C.unsubscribes).kv("shrinks", C.shrinks).kv("existsCalls", C.existsCalls)
                    .kv("depthCalls", C.depthCalls).kv("writesOverlappingNotify", C.writesOverlappingNotify).kv("snapshotsJudged", C.snapshotsJudged)
                    .kv("snapshotsWithConcurrentWrite", C.snapshotsWithConcurrentWrite).kv("missedObserversJudged", C.missedJudged).kv("maxThreads", C.maxThreads)
-                   .kv("nontrivialCases", C.nontrivialCases).kv("delaysInjected", k.afterWake.load() + k.condEntry.load() + k.beforeLock.load() + k.afterUnlock.load() + k.beforeNotify.load())
+                   .kv("linHistories", C.linHistories).kv("linOperations", C.linOps).kv("linSearchNodes", C.linNodes).kv("linInconclusive", C.linInconclusive).kv("linHistoriesWithOverlap", C.linWithOverlap).kv("nontrivialCases", C.nontrivialCases).kv("delaysInjected", k.afterWake.load() + k.condEntry.load() + k.beforeLock.load() + k.afterUnlock.load() + k.beforeNotify.load())
                    .kv("lockParks", k.watchedCondWaits.load()).raw("samples", rt::jsonArray(C.samples, false)));
     return 0;
 }
